@@ -731,13 +731,13 @@ def main(argv):
             prefix = find_prefix(bins, wd, v, seed, ladder)
             if prefix is None:
                 print(f"HARNESS: violation {key} did not reproduce, neither alone nor after the earlier runs of its chunk", file=sys.stderr)
-                exit_code = K.EXIT_HARNESS
+                exit_code = K.EXIT_HARNESS if exit_code == K.EXIT_OK else exit_code
                 continue
             mrun, mk = run, k
         rr = execute(bins, prefix + [mrun], wd, trace=True)[-1]
         if clause not in (rr["clauses"][mk] if mk < len(rr["clauses"]) else []):
             print(f"HARNESS: violation {key} did not reproduce after minimisation", file=sys.stderr)
-            exit_code = K.EXIT_HARNESS
+            exit_code = K.EXIT_HARNESS if exit_code == K.EXIT_OK else exit_code
             continue
         doc = replay_doc(mrun, mk, clause, seed, rr.get("traces", []))
         if prefix:
@@ -750,8 +750,7 @@ def main(argv):
         print(f"violated clause: {clause}; variant={key[0]} entry={'PyWrapSolve' if key[2] else 'Solve'}; "
               f"minimised to {len(mrun['solves'])} Solve call(s), outcomes={mrun['solves'][mk].get('outcomes', mrun['solves'][mk].get('nsteps'))}")
         print(f"VIOLATION property={PROP} replay={path}")
-        if exit_code == K.EXIT_OK:
-            exit_code = K.EXIT_VIOLATION
+        exit_code = K.EXIT_VIOLATION  # a demonstrated violation outranks a harness problem elsewhere
     for fid, (e, n) in sorted(known_hit.items()):
         print(f"KNOWN-FINDING: property={PROP} {e['what']} [{fid}; {n} occurrences in this run]")
 
